@@ -24,8 +24,9 @@ def get_direction_increment(directions_radians: np.ndarray) -> np.ndarray:
     ) % (2 * np.pi) - np.pi
 
     # The interval we are interested in is the average of the forward and backward
-    # differences.
-    return (forward_diff + backward_diff) / 2
+    # differences. The width of an interval is positive irrespective of the ordering
+    # (anti-clockwise or clockwise) of the direction array.
+    return np.abs(forward_diff + backward_diff) / 2
 
 
 def get_constraint_matrix(directions_radians: np.ndarray) -> np.ndarray:
